@@ -16,6 +16,9 @@ TRUSTED_BASE = [
 ]
 ASSUMPTIONS = [
     'serial CPU (cython) backend, no OpenMP, no MPI (parallel_manager is None)',
+    'ghost oracle: 1-d unit interval, constant h; which particles beyond the kernel radius of a face also get an '
+    'image (n_layers) is left to C07 -- demanded: every ghost is an image of a current real particle (multiset), '
+    'every real particle within 2h of a face has its image',
     'particle arrays are aligned (real particles first): C06 invariant, hypothesis WorldAligned of the theorems',
     'one_timestep is written in the documented language (calls of initialize/stageN/compute_accelerations/'
     'update_domain/do_post_stage with constant arguments, stage_dt arithmetic over t, dt and literals, '
@@ -38,8 +41,11 @@ LEVEL_TEXT = ("Lean 4 theorems for every program of the one_timestep language, e
               "event log (method, array, particle index, t, dt bit for bit, hook/NNPS/evaluator/callback events) must "
               "equal the model's trace, for shipped integrators with the method sets of their documented steppers and "
               "for generated 1-5 stage integrators with py_stage hooks, several evaluators, per-array steppers, hooks "
-              "that add particles; the property's own predicate is evaluated by letting CPython execute the "
-              "integrator's one_timestep literally.")
+              "that add particles, each configuration in the option matrix domain {periodic, mirror (reflecting walls), "
+              "none} x set_fixed_h {False, True} on one compiled module; the property's own predicate is evaluated by "
+              "letting CPython execute the integrator's one_timestep literally, and after every "
+              "Integrator.update_domain() the ghosts in the arrays must be exactly images (periodic translates / wall "
+              "reflections / none) of the current real particles with their current data.")
 LEVEL_NOTE = ("Partial: (1) proof covers the documented one_timestep language only (translator fails loudly outside it); "
               "(2) the generated Cython/C itself is third-party output: covered by the tie (testing), not by proof; "
               "(3) numerical stepper bodies: bit-exact differential execution on samples; (4) serial CPU backend only; "
